@@ -248,7 +248,8 @@ func genMetrics(r *Rng, tier string, p *Plan) {
 			p.Add(Op{K: "get", I: c, J: j})
 			continue
 		}
-		if nm.kind != "store" && r.Bool(0.2) {
+		if r.Bool(0.2) {
+			// (a stored value's name may be registered too, as a gauge)
 			p.Add(Op{K: "register", I: c, J: j})
 			continue
 		}
@@ -372,7 +373,13 @@ func execOp(mm *metrics.MultiMetrics, nm mName, op Op, o *mOut, hmu *sync.Mutex,
 			out.Probe("reregister_after_use")
 		}
 		hmu.Unlock()
-		mm.Register(metrics.Metadata{Name: nm.name, Type: nm.typ})
+		// components describe a metric in their own words: the same name and type
+		// arrive with different descriptions and units
+		typ := nm.typ
+		if nm.kind == "store" {
+			typ = metrics.Gauge
+		}
+		mm.Register(metrics.Metadata{Name: nm.name, Type: typ, Description: []string{"", "as the collector sees it", "as the router sees it"}[op.ID%3], Unit: []metrics.Unit{metrics.Dimensionless, metrics.Bytes}[op.ID%2]})
 	case "inc":
 		mm.Increment(nm.name)
 	case "count":
